@@ -1,15 +1,15 @@
-\* C02 reciprocity -- pinned (deviation switches of the pinned commit; emits verdicts instead of checking)
+\* C03 conservation, unit footprint sum, halo = zero padding -- pinned (deviation switches of the pinned commit; emits verdicts instead of checking)
 CONSTANTS
   ShiftStyle = "halo" LevelStyle = "cursor" TruncStyle = "sym" AnalyticStyle = "flat" BCubic = "minus"
   Sizes = {302, 403}
   Cells = {11, 23}
-  Halos = {99, 0, 1, 2, 3, 4}
+  Halos = {0, 1, 3}
   ModeSet = {202, 402, 1212}
-  NZs = {3}
-  LevelLists = "single"
+  NZs = {4}
+  LevelLists = "asc"
   Tabs = {1}
-  Analytic = {FALSE}
-  Family = "recip"
+  Analytic = {FALSE, TRUE}
+  Family = "conserve"
 INIT Init
 NEXT Next
 CHECK_DEADLOCK FALSE
